@@ -23,7 +23,7 @@ def cases(tier, rng):
         L = rng.randint(6, 30 if tier == 'thorough' else 14)
         init = {e: [c for c in menu if rng.random() < .7] for e in ents if rng.random() < .8}
         yield (build_scenario(rng, menu, ents, random_plan(rng, menu, ents, L, rng.randint(1, 8)), L, init,
-                              cfg=make_cfg(rng, menu, ents, L, blockers=rng.random() < .5)), 'random')
+                              cfg=make_cfg(rng, menu, ents, L, blockers=rng.random() < .5), pauses=rng.random() < .4), 'random')
 
 def react_cases(tier, rng):
     import re
@@ -73,7 +73,7 @@ STAGES = [dict(name='reactions', mode='app', coq='Check.C02r', cases=react_cases
                     'reactions; the delivery order (closing events overtaking the rest of the frame) is compared with the model, and per (entity, action) every episode must be closed exactly once'),
           dict(name='episodes', mode='app', coq='Check.C02c', cases=cases, nontrivial=nontrivial, shard=25,
                exhaustive={'thorough': False, 'quick': True},
-               rule='real App, an exclusive and a shared context type, 2-3 entities, two actions per context driven by scripted states cycling through None/Ongoing/Fired (in half of the random cases also a plain blocker that fails now and then); '
+               rule='real App, an exclusive and a shared context type, 2-3 entities, two actions per context driven by scripted states cycling through None/Ongoing/Fired (in half of the random cases also a plain blocker that fails now and then; in 40% the virtual clock is paused for some frames); '
                     'exhaustive: every single op from {insert, remove, despawn, respawn, rebuild} x entity x type issued after a frame in which the state is Ongoing / Fired / None, '
                     'directly between frames and through Commands from an Update system (264 histories); thorough adds 2500 ordered pairs; random interleavings of 1-8 ops over 6-30 frames. '
                     'non-trivial = a terminal event is delivered; distinct = distinct scenario text')]
